@@ -422,6 +422,10 @@ func runShared(p SharedPlan, record, gate bool) *sharedResult {
 		}
 		mu.Unlock()
 	}
+	// every goroutine owns ONE key and ONE value buffer for all its arguments (owned.go); the values
+	// given to a SHARED batch handle stay untouched until the closing commit has returned (another
+	// goroutine commits the handle, and the unchanged tree keeps the caller's slice in the batch)
+	cls := make([]*caller, g+1)
 	for gi := 0; gi < g; gi++ {
 		wg.Add(1)
 		go func(gi int) {
@@ -429,6 +433,8 @@ func runShared(p SharedPlan, record, gate bool) *sharedResult {
 			who := fmt.Sprintf("goroutine %d", gi)
 			defer ctl.active.Add(-1)
 			defer guard(who)
+			cl := newCaller(who)
+			cls[gi] = cl
 			bops := map[string][]shOp{}
 			dmuts := map[string][]bmut{}
 			commits := make([][]shCommit, p.Handles)
@@ -444,12 +450,12 @@ func runShared(p SharedPlan, record, gate bool) *sharedResult {
 				switch s.Kind {
 				case "bset":
 					c = now()
-					err = handles[s.H].Set([]byte(s.K), []byte(s.V))
+					err = cl.BSetShared(handles[s.H], s.K, s.V)
 					r = now()
 					bops[s.K] = append(bops[s.K], shOp{len(bops[s.K]) + 1, c, r, false, s.V, who})
 				case "bdel":
 					c = now()
-					err = handles[s.H].Delete([]byte(s.K))
+					err = cl.BDelete(handles[s.H], s.K)
 					r = now()
 					bops[s.K] = append(bops[s.K], shOp{len(bops[s.K]) + 1, c, r, true, "", who})
 				case "commit":
@@ -461,21 +467,21 @@ func runShared(p SharedPlan, record, gate bool) *sharedResult {
 					}
 				case "dset":
 					c = now()
-					err = view.Set([]byte(s.K), []byte(s.V))
+					err = cl.Set(view, s.K, s.V)
 					r = now()
 					dmuts[s.K] = append(dmuts[s.K], bmut{c, r, s.V, false, who})
 				case "ddel":
 					c = now()
-					err = view.Delete([]byte(s.K))
+					err = cl.Delete(view, s.K)
 					r = now()
 					dmuts[s.K] = append(dmuts[s.K], bmut{c, r, "", true, who})
 				case "get":
 					c = now()
-					var val []byte
-					val, err = view.Get([]byte(s.K))
+					var val string
+					val, err = cl.Get(view, s.K)
 					r = now()
 					if err == nil || errors.Is(err, kvstore.ErrKeyNotFound) {
-						obs = append(obs, shObs{s.K, c, r, err == nil, string(val), who})
+						obs = append(obs, shObs{s.K, c, r, err == nil, val, who})
 						err = nil
 					}
 				case "flush":
@@ -511,6 +517,8 @@ func runShared(p SharedPlan, record, gate bool) *sharedResult {
 	go func() {
 		defer wg.Done()
 		defer guard("reader")
+		cl := newCaller("the reader")
+		cls[g] = cl
 		rng := rand.New(rand.NewSource(p.RSeed))
 		rv := mustRealm(db, baseRealm)
 		var keys []string
@@ -527,13 +535,13 @@ func runShared(p SharedPlan, record, gate bool) *sharedResult {
 		for j := 0; j < p.Reads; j++ {
 			k := keys[rng.Intn(len(keys))]
 			c := now()
-			val, err := rv.Get([]byte(k))
+			val, err := cl.Get(rv, k)
 			r := now()
 			if err != nil && !errors.Is(err, kvstore.ErrKeyNotFound) {
 				fail("reader Get: " + err.Error())
 				continue
 			}
-			obs = append(obs, shObs{k, c, r, err == nil, string(val), "the reader"})
+			obs = append(obs, shObs{k, c, r, err == nil, val, "the reader"})
 			for y := rng.Intn(3); y > 0; y-- {
 				runtime.Gosched()
 			}
@@ -555,6 +563,13 @@ func runShared(p SharedPlan, record, gate bool) *sharedResult {
 		}
 		res.fcommits = append(res.fcommits, shCommit{c, r, "the harness (closing commit)"})
 	}
+	// every handle has been committed after its last mutation: the callers overwrite the values they gave to the handles
+	for _, cl := range cls {
+		if cl != nil {
+			cl.persistDone()
+		}
+	}
+	own.absorb(map[string]any{"sharedplan": p}, cls...)
 	_ = db.Iterate(kvstore.EmptyPrefix, func(k, v []byte) bool {
 		res.final[strings.TrimPrefix(string(k), baseRealm)] = string(v)
 		return true
